@@ -94,7 +94,7 @@ impl<FF: FiniteField> Debug for Polynomial<'_, FF> {
 // Not derived because `PartialEq` is also not derived.
 impl<FF: FiniteField> Hash for Polynomial<'_, FF> {
     fn hash<H: std::hash::Hasher>(&self, state: &mut H) {
-        self.coefficients.hash(state);
+        self.coefficients().hash(state);
     }
 }
 
